@@ -20,8 +20,14 @@ class Return(Exception):
 
 
 class Break(Exception):
-    def __init__(self, value):
+    def __init__(self, value, target=None):
         self.value = value
+        self.target = target
+
+
+class Continue(Exception):
+    def __init__(self, target=None):
+        self.target = target
 
 
 class Marker:
@@ -62,6 +68,35 @@ class Flags:
 
     def __repr__(self):
         return '%s(%d)' % (self.ty.split('::')[-1], self.bits)
+
+
+class Closure:
+    def __init__(self, node, env):
+        self.node = node
+        self.env = env
+
+
+class It:
+    """A Rust iterator, materialised (all sources in the fragment are finite constants)."""
+
+    def __init__(self, items):
+        self.items = list(items)
+        self.pos = 0
+
+    def rest(self):
+        return self.items[self.pos:]
+
+
+class Tok:
+    """Abstract token for the annotation passes (BasicAnnotate)."""
+
+    def __init__(self, text):
+        self.text = text
+        self.lower = text.lower()
+        self.nan = False
+
+    def __repr__(self):
+        return 'Tok(%r%s)' % (self.text, ',nan' if self.nan else '')
 
 
 class Builder:
@@ -191,6 +226,10 @@ class Evaluator:
                 if len(p['fields']) == 1:
                     return self.match(p['fields'][0]['p'], v[2], env)
                 return True
+            if name in ('Some', 'None') and (v is None or (isinstance(v, tuple) and v and v[0] == 'Some')):
+                if v is None or name == 'None':
+                    return v is None and name == 'None'
+                return len(p['fields']) == 1 and self.match(p['fields'][0]['p'], v[1], env)
             raise Unanalysable('struct pattern on %r' % (v,), p)
         raise Unanalysable('pattern kind ' + k, p)
 
@@ -401,6 +440,67 @@ class Evaluator:
             return self.eval(b['expr'], env)
         return ()
 
+    def e_Loop(self, e, env):
+        n = 0
+        while True:
+            n += 1
+            if n > 5000:
+                raise Unanalysable('loop bound exceeded', e)
+            try:
+                self.block(e['body'], env)
+            except Break as b:
+                if b.target in (None, e.get('id')):
+                    return b.value
+                raise
+            except Continue as c:
+                if c.target in (None, e.get('id')):
+                    continue
+                raise
+
+    def e_Break(self, e, env):
+        v = self.eval(e['e'], env) if e.get('e') else ()
+        raise Break(v, e.get('target'))
+
+    def e_Continue(self, e, env):
+        raise Continue(e.get('target'))
+
+    def e_Closure(self, e, env):
+        return Closure(e, env)
+
+    def call_closure(self, c, args):
+        env = dict(c.env)
+        for p, a in zip(c.node['params'], args):
+            if not self.match(p, a, env):
+                raise Unanalysable('refutable closure parameter', p)
+        try:
+            return self.eval(c.node['body'], env)
+        except Return as r:
+            return r.value
+
+    def e_Index(self, e, env):
+        base = self.eval(e['e'], env)
+        idx = self.eval(e['i'], env)
+        if isinstance(base, (list, bytes, bytearray)) and isinstance(idx, int):
+            if not (0 <= idx < len(base)):
+                raise Unanalysable('index %d out of bounds (len %d)' % (idx, len(base)), e)
+            return base[idx]
+        raise Unanalysable('index %r[%r]' % (base, idx), e)
+
+    def e_AssignOp(self, e, env):
+        l = H.peel(e['l'])
+        cur = self.eval(l, env)
+        r = self.eval(e['r'], env)
+        op = e['op'].replace('Assign', '')
+        fake = {'k': 'Binary', 'op': {'AddAssign': 'Add', 'SubAssign': 'Sub'}.get(e['op'], op), 'l': None, 'r': None}
+        if isinstance(cur, int) and isinstance(r, int):
+            v = cur + r if fake['op'] == 'Add' else cur - r if fake['op'] == 'Sub' else None
+            if v is None:
+                raise Unanalysable('compound assignment ' + e['op'], e)
+            if l['k'] == 'Path' and l['res'].get('t') == 'local':
+                env[l['res']['id']] = v
+                return ()
+        raise Unanalysable('compound assignment', e)
+
     def e_Ret(self, e, env):
         raise Return(self.eval(e['e'], env) if e.get('e') else ())
 
@@ -449,7 +549,36 @@ class Evaluator:
             return Flags(path, fields['bits'])
         return fields
 
+    def fmt_index(self):
+        if not hasattr(self, '_fmt'):
+            self._fmt = {fa['macro_sp']: fa for fa in self.facts.format_args}
+        return self._fmt
+
+    def eval_format(self, e, env):
+        """format!(..): template from the pre-lowering AST (format index), arguments from the lowered `args` tuple."""
+        fa = self.fmt_index()[e['sp']]
+        tup = None
+        for n in H.walk(e):
+            if n.get('k') == 'Let' and (n.get('pat') or {}).get('k') == 'Binding' and n['pat'].get('name') == 'args' and (n.get('init') or {}).get('k') == 'Tup':
+                tup = n['init']
+                break
+        vals = [self.eval(x, env) for x in tup['es']] if tup else []
+        out = ''
+        for p in fa['pieces']:
+            if 'lit' in p:
+                out += p['lit']
+                continue
+            if not (p.get('trait') == 'Display' and p.get('plain')) or p['arg'] >= len(vals):
+                raise Unanalysable('format placeholder %r' % (p,), e)
+            v = vals[p['arg']]
+            if isinstance(v, bool) or not isinstance(v, (str, int)):
+                raise Unanalysable('format argument %r' % (v,), e)
+            out += str(v)
+        return out
+
     def e_Call(self, e, env):
+        if e.get('exp') == 'macro:format' and e.get('sp') in self.fmt_index():
+            return self.eval_format(e, env)
         f = H.peel(e['f'])
         callee = e.get('resolved') or e.get('callee')
         if f['k'] == 'Path' and f['res'].get('t') == 'def' and 'Ctor' in f['res'].get('kind', ''):
@@ -485,7 +614,12 @@ class Evaluator:
         c = _strip(callee)
         name = method or c.split('::')[-1]
         a0 = args[0] if args else None
+        r = self.collection_method(c, name, a0, args, e)
+        if r is not NotImplemented:
+            return r
         # --- builder
+        if c == 'digit_string::DigitString::new' and not args:
+            return Builder()
         if isinstance(a0, Builder):
             b = a0
             if name in ('is_empty', 'is_null', 'len', 'is_ordinal'):
@@ -504,13 +638,21 @@ class Evaluator:
                 return ()
             if name == 'reset':
                 b.ops.append(('reset',))
+                b.digits, b.leading_zeroes, b.marker, b.frozen = b'', 0, Marker('None'), False
                 return ()
             if name == 'deref':
                 return b.digits
+            if name == 'to_string':
+                return '0' * b.leading_zeroes + b.digits.decode('latin-1')
             raise Unanalysable('builder method ' + name, e)
         # --- strings
-        if isinstance(a0, str) and (c.startswith(('core::str::', 'alloc::str::')) or c.startswith('core::cmp::')):
+        if isinstance(a0, str) and c.startswith(('core::str::', 'alloc::str::', 'core::cmp::', 'alloc::string::', 'core::clone::', 'alloc::borrow::',
+                                                  'core::convert::', 'core::ops::deref::', 'core::borrow::')) and not (len(a0) == 1 and c.startswith('core::char::')):
             return self.str_method(name, a0, args[1:], e)
+        if isinstance(a0, float) and c.startswith('core::f64::') or isinstance(a0, float) and 'f64' in c:
+            if name == 'recip':
+                return 1.0 / a0
+            raise Unanalysable('f64 method ' + name, e)
         if isinstance(a0, (bytes, bytearray)):
             if name == 'len':
                 return len(a0)
@@ -519,8 +661,24 @@ class Evaluator:
             if name in ('eq', 'ne'):
                 r = bytes(a0) == bytes(args[1])
                 return r if name == 'eq' else not r
-        if isinstance(a0, list) and name == 'last':       # chars().last()
-            return ('Some', a0[-1]) if a0 else None
+        if isinstance(a0, str) and len(a0) == 1 and c.startswith('core::char::methods::'):
+            ch = a0
+            if name == 'is_whitespace':
+                return ch.isspace()
+            if name == 'is_ascii_whitespace':
+                return ch in ' \t\n\r\x0c'
+            if name == 'is_alphanumeric':
+                return ch.isalnum()
+            if name == 'is_alphabetic':
+                return ch.isalpha()
+            if name == 'is_ascii_digit':
+                return ch in '0123456789'
+            if name == 'is_numeric':
+                return ch.isnumeric()
+            if name == 'is_uppercase':
+                return ch.isupper()
+            if name == 'is_lowercase':
+                return ch.islower()
         if name == 'unwrap':
             if isinstance(a0, tuple) and a0 and a0[0] == 'Some':
                 return a0[1]
@@ -555,6 +713,151 @@ class Evaluator:
         if c.endswith('LangInterpreter::get_morph_marker') or c.endswith('::is_decimal_sep') or c.endswith('::is_linking'):
             raise Unanalysable('unresolved trait call ' + c, e)
         raise Unanalysable('call of %s on %r' % (c, a0), e)
+
+    def collection_method(self, c, name, a0, args, e):
+        """Vec / slice / iterator / Option / range / token stubs.  Returns NotImplemented when not applicable."""
+        # tokens
+        if isinstance(a0, Tok):
+            if name == 'text_lowercase':
+                return a0.lower
+            if name == 'text':
+                return a0.text
+            if name == 'set_nan':
+                a0.nan = bool(args[1])
+                return ()
+            return NotImplemented
+        # constructors
+        if c in ('alloc::vec::Vec::new',) and not args:
+            return []
+        if c == 'alloc::vec::Vec::with_capacity':
+            return []
+        if c.endswith('RangeInclusive::new') and len(args) == 2:
+            return ('rangei', args[0], args[1])
+        if c.endswith('IntoIterator::into_iter') or name == 'into_iter':
+            if isinstance(a0, It):
+                return a0
+            if isinstance(a0, (list, tuple)) and not (isinstance(a0, tuple) and a0 and a0[0] in ('rangei', 'Some', 'pieces', 'cf', 'enum')):
+                return It(a0)
+            if isinstance(a0, tuple) and a0 and a0[0] == 'pieces':
+                return It(a0[1])
+            if isinstance(a0, dict) and set(a0) == {'start', 'end'}:
+                return It(range(a0['start'], a0['end']))
+            if isinstance(a0, tuple) and a0 and a0[0] == 'rangei':
+                return It(range(a0[1], a0[2] + 1))
+            return NotImplemented
+        if isinstance(a0, (list,)) or (isinstance(a0, (bytes, bytearray)) and name in ('iter', 'len', 'is_empty', 'contains', 'last', 'first')):
+            seq = a0
+            if name == 'iter':
+                return It(seq)
+            if name == 'len':
+                return len(seq)
+            if name == 'is_empty':
+                return len(seq) == 0
+            if name == 'contains':
+                return args[1] in seq
+            if name == 'push' and isinstance(seq, list):
+                seq.append(args[1])
+                return ()
+            if name == 'clear' and isinstance(seq, list):
+                del seq[:]
+                return ()
+            if name == 'last':
+                return ('Some', seq[-1]) if len(seq) else None
+            if name == 'first':
+                return ('Some', seq[0]) if len(seq) else None
+            if name in ('deref', 'as_slice', 'as_ref', 'borrow'):
+                return seq
+            if name == 'index' or name == 'index_mut':
+                i = args[1]
+                if isinstance(i, int) and 0 <= i < len(seq):
+                    return seq[i]
+                raise Unanalysable('index out of bounds', e)
+        if isinstance(a0, tuple) and a0 and a0[0] == 'rangei' and name == 'contains':
+            return a0[1] <= args[1] <= a0[2]
+        if isinstance(a0, dict) and set(a0) == {'start', 'end'} and name == 'contains':
+            return a0['start'] <= args[1] < a0['end']
+        if isinstance(a0, str) and name == 'chars' and False:
+            return It(list(a0))
+        if isinstance(a0, It):
+            it = a0
+            if name == 'next':
+                if it.pos < len(it.items):
+                    it.pos += 1
+                    return ('Some', it.items[it.pos - 1])
+                return None
+            rest = it.rest()
+
+            def call(f, *xs):
+                if isinstance(f, Closure):
+                    return self.call_closure(f, list(xs))
+                if isinstance(f, tuple) and f and f[0] == 'fn':
+                    return self.apply_fn(f[1], list(xs), e, {})
+                raise Unanalysable('callable %r' % (f,), e)
+            if name == 'enumerate':
+                return It([(i, x) for i, x in enumerate(rest)])
+            if name == 'rev':
+                return It(list(reversed(rest)))
+            if name in ('copied', 'cloned', 'by_ref', 'peekable', 'fuse'):
+                return It(rest)
+            if name == 'map':
+                return It([call(args[1], x) for x in rest])
+            if name == 'filter':
+                return It([x for x in rest if self.truth(call(args[1], x), e)])
+            if name == 'filter_map':
+                out = []
+                for x in rest:
+                    v = call(args[1], x)
+                    if v is not None:
+                        if not (isinstance(v, tuple) and v and v[0] == 'Some'):
+                            raise Unanalysable('filter_map closure returned %r' % (v,), e)
+                        out.append(v[1])
+                return It(out)
+            if name == 'take_while':
+                out = []
+                for x in rest:
+                    if not self.truth(call(args[1], x), e):
+                        break
+                    out.append(x)
+                return It(out)
+            if name == 'skip':
+                return It(rest[args[1]:])
+            if name == 'take':
+                return It(rest[:args[1]])
+            if name == 'all':
+                return all(self.truth(call(args[1], x), e) for x in rest)
+            if name == 'any':
+                return any(self.truth(call(args[1], x), e) for x in rest)
+            if name == 'find':
+                for x in rest:
+                    if self.truth(call(args[1], x), e):
+                        return ('Some', x)
+                return None
+            if name == 'position':
+                for i, x in enumerate(rest):
+                    if self.truth(call(args[1], x), e):
+                        return ('Some', i)
+                return None
+            if name == 'count':
+                return len(rest)
+            if name == 'last':
+                return ('Some', rest[-1]) if rest else None
+            if name == 'collect':
+                return list(rest)
+            return NotImplemented
+        # Option helpers
+        if (a0 is None or (isinstance(a0, tuple) and a0 and a0[0] == 'Some')) and c.startswith('core::option::Option'):
+            if name == 'is_some':
+                return a0 is not None
+            if name == 'is_none':
+                return a0 is None
+            if name == 'unwrap_or':
+                return a0[1] if a0 is not None else args[1]
+            if name == 'map':
+                if a0 is None:
+                    return None
+                f = args[1]
+                return ('Some', self.call_closure(f, [a0[1]]) if isinstance(f, Closure) else self.apply_fn(f[1], [a0[1]], e, {}))
+        return NotImplemented
 
     def flags_all(self, ty):
         # union of all associated constants of the flags type
@@ -598,7 +901,33 @@ class Evaluator:
         if name == 'is_empty':
             return s == ''
         if name == 'chars':
-            return list(s)
+            return It(list(s))
+        if name == 'bytes':
+            return It(list(s.encode('utf-8')))
+        if name == 'split_whitespace':
+            return It(s.split())
+        if name == 'split':
+            if isinstance(args[0], str):
+                return It(s.split(args[0]))
+        if name in ('eq_ignore_ascii_case',):
+            return s.lower() == args[0].lower()
+        if name == 'trim_matches':
+            pats = args[0] if isinstance(args[0], list) else [args[0]]
+            return s.strip(''.join(pats))
+        if name in ('strip_suffix', 'strip_prefix'):
+            pat = args[0]
+            if name == 'strip_suffix' and s.endswith(pat):
+                return ('Some', s[:-len(pat)] if pat else s)
+            if name == 'strip_prefix' and s.startswith(pat):
+                return ('Some', s[len(pat):])
+            return None
+        if name in ('to_string', 'to_owned', 'as_str', 'clone', 'into', 'as_ref', 'deref', 'borrow', 'into_boxed_str', 'from'):
+            return s
+        if name == 'parse':
+            import re as _re
+            if _re.fullmatch(r'[+-]?(\d+\.?\d*|\.\d+)([eE][+-]?\d+)?', s):
+                return Res(True, float(s))
+            return Res(False, 'ParseFloatError')
         if name == 'trim':
             return s.strip()
         if name == 'to_lowercase':
